@@ -296,6 +296,23 @@ def shared_intron_world(m_first, with_known):
     return w
 
 
+def majority_world(with_known):
+    """a novel four-exon isoform whose first two introns are unannotated and canonical for '+' and whose third intron is the (CT-AC,
+       i.e. '-' canonical) intron of an annotated '-' gene M; the reads carry polyA tails: the splice sites vote 2:1 for '+', the tail
+       agrees - the model is a '+' transcript whatever gene its third intron is annotated in"""
+    from vlib import worlds as W
+    b = 2000
+    A, B, C, D = [b + 1, b + 200], [b + 501, b + 700], [b + 1001, b + 1200], [b + 1601, b + 1800]
+    w = W.base_world(1, 8000)
+    w["genes"].append({"id": "M", "chr": "chr1", "strand": "-", "transcripts": [{"id": "TM", "exons": [C, D]}]})
+    w["sites"] = [["chr1", A[1] + 1, B[0] - 1, "+"], ["chr1", B[1] + 1, C[0] - 1, "+"], ["chr1", C[1] + 1, D[0] - 1, "-"]]
+    reads = [W.read_of("nov_%d" % i, "chr1", [A, B, C, D], strand="+") for i in range(8)]
+    if with_known:
+        reads += [W.read_of("km_%d" % i, "chr1", [C, D], strand="-") for i in range(3)]
+    w["reads"] = reads
+    return w
+
+
 def islands_world(variant):
     """a 6-exon '+' gene (all introns GT-AG) whose reads form two disjoint islands (exons 1-3 and exons 4-6): the reference window of a
        region is the island, annotated introns of a reported known isoform lie outside it; island B also carries a novel isoform
@@ -395,7 +412,7 @@ def pipeline_case(args):
     if kind == "shared":
         from props import c11
         m_first, with_known, reflect, lvl = param
-        w = shared_intron_world(m_first, with_known)
+        w = shared_intron_world(m_first, with_known) if m_first < 2 else majority_world(with_known)
         seqs = syn.genome_sequences(w)
         true_strand = "+"
         if reflect:
@@ -524,7 +541,7 @@ def run(ctx):
     jobs = [("anti", o, ctx.scratch) for o in orders] + [("antinovel", (v, lvl), ctx.scratch) for v in (0, 1, 2) for lvl in ("all", "auto")] + \
         [("islands", (v, lvl), ctx.scratch) for v in (0, 1, 2, 3) for lvl in ("auto", "all")] + \
         [("mixed", (n, lvl), ctx.scratch) for n in ((2,) if quick else (1, 2, 3)) for lvl in ("auto", "all")] + \
-        [("shared", (mf, wk, rf, lvl), ctx.scratch) for mf in (0, 1) for wk in (0, 1) for rf in (0, 1) for lvl in ("all", "auto")] + [("novel", lvl + sw, ctx.scratch) for lvl in ("auto", "only_canonical", "only_stranded", "all") for sw in ("", "/swap", "/nopolya")]
+        [("shared", (mf, wk, rf, lvl), ctx.scratch) for mf in (0, 1, 2) for wk in (0, 1) for rf in (0, 1) for lvl in ("all", "auto")] + [("novel", lvl + sw, ctx.scratch) for lvl in ("auto", "only_canonical", "only_stranded", "all") for sw in ("", "/swap", "/nopolya")]
     nchecked = 0
     for kind, param, nc, errs in core.pmap(pipeline_case, jobs):
         nchecked += nc
